@@ -190,7 +190,8 @@ Inductive node :=
 | NAction (p : pipe)
 | NIf (p : pipe) (th el : list node)
 | NRange (p : pipe) (body el : list node)
-| NOther (what : string).          (* with, define/template, variable declarations ...: not covered *)
+| NWith (p : pipe) (body el : list node)
+| NOther (what : string).          (* define/template, variable declarations, break ...: not covered *)
 
 (* ------------------------------------------------------------------------------------------ *)
 (* Evaluation                                                                                  *)
@@ -627,6 +628,10 @@ Fixpoint exec_node (sch : schema) (n : node) (dot : value) {struct n} : result (
       | Some (VSlice _ l) => loop_exec (seq_exec (exec_node sch) body) l
       | _ => Err "range over a value that is not a slice"
       end)
+  | NWith p body el =>
+      (* dot is set to the value of the pipeline if it is not empty; otherwise dot is unaffected (else list) *)
+      bind (eval_pipe sch dot p) (fun v => bind (truth v) (fun b =>
+      if b then seq_exec (exec_node sch) body v else seq_exec (exec_node sch) el dot))
   | NOther w => Err ("construct not modelled: " ++ w)%string
   end.
 
@@ -806,13 +811,27 @@ Definition truth_ok (sch : schema) (t : ty) : bool :=
   | _ => false
   end.
 
+(* A guard: inside {{if .A.B}} ... (before its else) and inside {{with .A.B}} ... the value at that path is not
+   "empty" (text/template isTrue), in particular not a nil pointer: the path joins the facts for that branch. *)
+Definition guard_of (p : pipe) : option (list string) :=
+  match p with [CArgs (AField ch) []] => Some ch | _ => None end.
+
+Definition path_fact (st : sty) : list path := match s_path st with Some q => [q] | None => [] end.
+
+Definition guard_fact (sch : schema) (facts : list path) (dot : sty) (p : pipe) : list path :=
+  match guard_of p with
+  | Some ch => match ty_chain sch facts dot ch [] with Some st => path_fact st | None => [] end
+  | None => []
+  end.
+
 Fixpoint check_node (sch : schema) (facts : list path) (dot : sty) (n : node) {struct n} : bool :=
   match n with
   | NText _ => true
   | NAction p => match ty_pipe sch facts dot p with Some _ => true | None => false end
   | NIf p th el =>
       match ty_pipe sch facts dot p with
-      | Some st => truth_ok sch (s_ty st) && forallb (check_node sch facts dot) th
+      | Some st => truth_ok sch (s_ty st)
+                   && forallb (check_node sch (guard_fact sch facts dot p ++ facts) dot) th
                    && forallb (check_node sch facts dot) el
       | None => false
       end
@@ -822,6 +841,13 @@ Fixpoint check_node (sch : schema) (facts : list path) (dot : sty) (n : node) {s
           forallb (check_node sch facts (mkSty et (path_app pa PElem) false)) body
           && forallb (check_node sch facts dot) el
       | _ => false
+      end
+  | NWith p body el =>
+      match ty_pipe sch facts dot p with
+      | Some st => truth_ok sch (s_ty st)
+                   && forallb (check_node sch (path_fact st ++ facts) st) body
+                   && forallb (check_node sch facts dot) el
+      | None => false
       end
   | NOther _ => false
   end.
